@@ -706,7 +706,13 @@ def _count_paths(e, tab, targets):
         if e.get("src") == "TryDesugar":
             return s
         arms = set()
+        null_scrut = "nullskip" in targets and e.get("src") in ("IfLet", "LetElse") and any(
+            b_.get("op") in ("==", "!=") and 0xFFFFFFFF in (lit_value(b_["l"]), lit_value(b_["r"])) for b_ in walk_k(e["scrut"], "Binary"))
         for a in e["arms"]:
+            if null_scrut and (a["pat"].get("k") == "Wild" or (pat_variant(a["pat"]) or "").endswith("None")):
+                # `if let Some(sheet) = parse_bundle_sheet(..)?` where the helper answers None for the null marker:
+                # the None side is the record that declares nothing
+                continue
             arms |= _count_paths(a["body"], tab, targets)
         return _seq(s, arms)
     if k in ("Loop", "Closure"):
@@ -934,6 +940,21 @@ def r_numctor(ctx, rep):
         rep.anchor_missing("R-NUMCTOR", "format_excel_* call sites in the readers (found %d)" % n)
 
 
+def _format_operand_value(F, fn, body, depth):
+    """the operand is what `body` evaluates to (the body of a parameterless local closure)"""
+    init = unwrap(body)
+    while isinstance(init, dict) and init.get("k") == "BlockExpr" and not init["block"].get("stmts") and init["block"].get("expr") is not None:
+        init = unwrap(init["block"]["expr"])
+    if isinstance(init, dict) and init.get("k") == "Match":
+        rs = [_format_operand_ok(F, fn, _arm_value(a["body"]), depth + 1) for a in init["arms"]]
+        goods = [r for r in rs if r is None]
+        consts = [a for a in init["arms"] if "Other" in variants_built(a["body"], "CellFormat")]
+        if goods and len(goods) + len(consts) >= len(init["arms"]):
+            return None
+        return "a format that is not looked up from the style index on any path"
+    return _format_operand_ok(F, fn, init, depth + 1)
+
+
 def _format_operand_ok(F, fn, e, depth=0):
     """None if ok, else a reason string."""
     e = peel(e)
@@ -943,6 +964,12 @@ def _format_operand_ok(F, fn, e, depth=0):
         if lit_value(e["args"][0]) is not None:
             return "a constant style index"
         return None
+    if e.get("k") == "Call" and not e.get("args") and isinstance(e.get("f"), dict) and path_local(unwrap(e["f"])):
+        # `let cell_format = || match .. { .. }; .. cell_format()`: a lazy look-up; the closure's body is the operand
+        li_ = let_init(fn.body, unwrap(e["f"]))
+        cl_ = unwrap(li_["init"]) if li_ is not None else None
+        if isinstance(cl_, dict) and cl_.get("k") == "Closure" and not cl_.get("params"):
+            return _format_operand_value(F, fn, cl_["body"], depth + 1)
     if e.get("k") == "Call":
         c = callee(e) or ""
         g = F.fn(c)
@@ -974,6 +1001,8 @@ def _format_operand_ok(F, fn, e, depth=0):
             for x in walk(fn.body):
                 if x.get("k") == "Let" and x.get("init") is not None and any(l == lid for _, l in pat_bindings(x["pat"])):
                     init = unwrap(x["init"])
+                    if init.get("k") == "Closure" and not init.get("params"):
+                        return "a closure used as a value"
                     if init.get("k") == "Match":
                         # `match style attr { Ok(Some(style)) => formats.get(id), _ => Some(&CellFormat::Other) }`
                         rs = [_format_operand_ok(F, fn, _arm_value(a["body"]), depth + 1) for a in init["arms"]]
@@ -1420,7 +1449,21 @@ def r_cfbflow(ctx, rep):
             rep.violation("R-CFBFLOW", key, loc(fn.raw), "get_stream does not choose between the mini stream and regular sectors by the stream size")
         else:
             i, c = hit
-            lfc, rv = field_chain(c["l"]), lit_value(c["r"])
+            lhs_ = c["l"]
+            if path_local(peel(lhs_)) and isinstance(peel(lhs_), dict) and peel(lhs_).get("k") == "Path":
+                # `let len = d.len;` / `let (start, len) = (d.start, d.len);`
+                lid_ = path_local(peel(lhs_))[1]
+                for l_ in walk_k(fn.body, "Let"):
+                    if l_.get("init") is None:
+                        continue
+                    p_, i_ = l_["pat"], unwrap(l_["init"])
+                    if p_.get("k") == "Binding" and p_.get("lid") == lid_:
+                        lhs_ = i_
+                    elif p_.get("k") == "Tuple" and isinstance(i_, dict) and i_.get("k") == "Tup" and len(p_.get("pats", [])) == len(i_.get("es", [])):
+                        for q_, e_ in zip(p_["pats"], i_["es"]):
+                            if q_.get("k") == "Binding" and q_.get("lid") == lid_:
+                                lhs_ = e_
+            lfc, rv = field_chain(lhs_), lit_value(c["r"])
             then_mini = any(f["name"].startswith("mini_") for f in walk_k(i["then"], "Field")) and not any(f["name"] in ("sectors", "fats") for f in walk_k(i["then"], "Field"))
             else_reg = any(f["name"] in ("sectors", "fats") for f in walk_k(i["els"], "Field")) and not any(f["name"].startswith("mini_") for f in walk_k(i["els"], "Field"))
             if lfc and lfc[1][-1:] == ["len"] and c["op"] == "<" and rv == 4096 and then_mini and else_reg:
